@@ -307,13 +307,28 @@ def main_common(pid):
     return ck, r, byid
 
 
+def universe(ck, pid):
+    """the exhaustive universe of MC_DataLoops, replayed into the code (harness/drivers/dataloops.py); records get the fields the
+    scenario keys are computed from"""
+    from . import dataloops
+    res, byid, decls, opts = dataloops.stage(ck, pid, ck.tier == "thorough")
+    for rec in byid.values():
+        rec["d"], rec["o"] = decls[tuple(rec["sh"])], opts[tuple(sorted(rec["st"]))]
+        rec["shape"], rec["otag"] = "+".join(rec["sh"]), ",".join(sorted(rec["st"])) or "default"
+        rec["input"] = repr([(e["k"]["s"], e["v"]["s"] if e["v"]["k"] in ("lit", "str") else e["v"]["n"]) for e in rec["x"]])[:90]
+    return res, byid
+
+
 def main():
     ck, r, byid = main_common("C05")
-    for t in r.tagged("VIOL"):
-        rec = byid[t[1]]
-        key_ = "C05|%s|%s|%s|%s" % (t[2], t[3], features(rec), ",".join(sorted(set(rec["otag"].split(",")) - {"default"})) or "default")
-        ck.violation(key_, t[2], rec)
+    ru, byu = universe(ck, "C05")
+    for res, ids in ((r, byid), (ru, byu)):
+        for t in res.tagged("VIOL"):
+            rec = ids[t[1]]
+            key_ = "C05|%s|%s|%s|%s" % (t[2], t[3], features(rec), ",".join(sorted(set(rec["otag"].split(",")) - {"default"})) or "default")
+            ck.violation(key_, t[2], rec)
     finish_notes(ck, r, byid)
+    finish_notes(ck, ru, byu)
     ck.rule = RULE
     ck.trusted = TRUSTED
     ck.assumptions = ASSUME
@@ -330,7 +345,7 @@ def finish_notes(ck, r, byid):
             k = (t[2], rec["shape"], rec["otag"])
             if k not in seen and len(seen) < 8:
                 seen.add(k)
-                ck.note("divergence: M (%s loop as transcribed) differs from the code on %s [%s] %s" % (t[2], rec["shape"], rec["otag"], rec["input"]))
+                ck.note("divergence: M (%s loop as transcribed in DataLoops.tla) differs from the code on %s [%s] %s" % (t[2], rec["shape"], rec["otag"], rec["input"]))
 
 
 RULE = ("declarations = 1-3 fields drawn from 15 field shapes (required, default, optional, alias+alias_from, case-insensitive, no_input, "
